@@ -251,6 +251,13 @@ def r4(ctx):
         drb = [bb for bb, t in b.calls(re.compile(r"^std::vec::Vec::drain$")) if _on_field(b, t["args"][0], "turmoil_net::fixture::scheduler::Scheduler::pending")]
         ea = [bb for bb, t in b.calls(re.compile(r"EnterGuard::egress_all$"))]
         due_dl = [x for x in dl if not (ves and b.dominated_by_block(x, ves[0][0]))]
+        # `ready.into_iter().for_each(|s| guard.deliver(s.pkt))`: the delivery loop as a closure; the for_each call is the delivery site
+        for bb, t in b.calls(re.compile(r"Iterator::for_each$|Iterator>::for_each$")):
+            for cid in closure_args(b, t):
+                cb = ctx.w.bodies.get(cid)
+                cdl = [x for x, _ in cb.calls(re.compile(r"EnterGuard::deliver$"))] if cb else []
+                if cdl and all(r_ not in cb.reachable(0, removed_blocks=cdl) for r_ in cb.exits()) and not (ves and b.dominated_by_block(bb, ves[0][0])):
+                    due_dl.append(bb)
         okord = len(drb) == 1 and bool(ea) and bool(due_dl) and all(b.dominated_by_block(x, drb[0]) for x in ea) and \
             all(x not in b.reachable(e) for e in ea for x in due_dl)
         ctx.inst(R, "tick:due-before-new", okord, b.span, "packets that fell due are delivered before this tick's egress is drained and routed" if okord else
